@@ -488,6 +488,7 @@ func runC06(c *core.Ctx) {
 		}
 	}
 	c06SummaryNoToday(c, summaryZones)
+	c06SubSecond(c, [][]string{{"print"}, {"csv", "log"}, {"reg"}, {"report", "quantity"}})
 	dir := filepath.Join(c.Work, "summary")
 	type target struct {
 		arg string
@@ -606,6 +607,61 @@ func c06SummaryNoToday(c *core.Ctx, zones []string) {
 					}
 					c.Violation(sig, fmt.Sprintf("%s, TZ=%s, layout %q: differs from the summary of the log restricted to that calendar day", what, z, layout),
 						caseDoc{Files: files, Args: args, Env: map[string]string{"TZ": z}, Expected: resDoc(ref), Observed: resDoc(res)})
+				}
+			}
+		}
+	}
+}
+
+// c06SubSecond: headings and bounds that differ only in the fraction of a second (the time package accepts a
+// fraction after the seconds of a layout that has none): the comparison is between instants, not whole seconds.
+func c06SubSecond(c *core.Ctx, cmds [][]string) {
+	dir := filepath.Join(c.Work, "subsecond")
+	for li, layout := range []string{"2006/01/02 15:04:05", "2006/01/02 15:04:05.000"} {
+		stamps := []string{"2021/01/01 10:00:00", "2021/01/01 10:00:00.250", "2021/01/01 10:00:00.500", "2021/01/01 10:00:00.750", "2021/01/01 10:00:01", "2021/01/02 09:59:59.999"}
+		if li == 1 {
+			stamps[0], stamps[4] = "2021/01/01 10:00:00.000", "2021/01/01 10:00:01.000"
+		}
+		block := func(k int) string { return fmt.Sprintf("%s:\n  food%d: %d\n", stamps[k], k, k+1) }
+		full := ""
+		for k := range stamps {
+			full += block(k)
+		}
+		for bi := -1; bi < len(stamps); bi++ {
+			for ei := -1; ei < len(stamps); ei++ {
+				if bi < 0 && ei < 0 {
+					continue
+				}
+				sel := ""
+				var period []string
+				for k := range stamps {
+					if (bi < 0 || k >= bi) && (ei < 0 || k <= ei) {
+						sel += block(k)
+					}
+				}
+				if bi >= 0 {
+					period = append(period, "-b", stamps[bi])
+				}
+				if ei >= 0 {
+					period = append(period, "-e", stamps[ei])
+				}
+				files := map[string]string{"food.yaml": c06Book, "log.yaml": full, "logr.yaml": sel}
+				run.WriteFiles(dir, files)
+				for _, cmd := range cmds {
+					if (bi+ei+len(cmd[0]))%2 == 0 && c.Quick() && len(cmds) > 1 {
+						continue
+					}
+					pre := []string{"--no-color", "-d", "food.yaml", "--date-format", layout}
+					ref := run.Exec(c.HR, append(append(append([]string{}, pre...), "-l", "logr.yaml"), cmd...), run.ExecOpts{Dir: dir})
+					args := append(append(append(append([]string{}, pre...), "-l", "log.yaml"), period...), cmd...)
+					res := run.Exec(c.HR, args, run.ExecOpts{Dir: dir, Env: map[string]string{"TZ": c06Zones[(bi+ei+4)%4]}})
+					c.Eval(2)
+					c.Count("runs_sub_second", 1)
+					c.Nontrivial("subsecond", fmt.Sprint(li, bi, ei), cmd[0])
+					if ref.Exit != 0 || res.Exit != ref.Exit || res.Out != ref.Out {
+						c.Violation(strings.Join(cmd, " ")+"|sub-second-selection", fmt.Sprintf("%s %s under layout %q: output differs from the same command on the log restricted to the headings between the bounds", joinArgs(period), joinArgs(cmd), layout),
+							caseDoc{Files: files, Args: args, Expected: resDoc(ref), Observed: resDoc(res)})
+					}
 				}
 			}
 		}
